@@ -124,11 +124,13 @@ func cmdEmit(args []string) {
 					alpha = CPs(r.Alphabet())
 					_ = r.Entropy()
 					_ = r.SuccessProbability()
-					o := e.Run(nil, func() { p, err := r.Generate(); res = ResOf(p, err, nil) })
+					var pw *spg.Password
+					o := e.Run(nil, func() { p, err := r.Generate(); res = ResOf(p, err, nil); pw = p })
 					if o.Panic != nil {
 						res = ResOf(nil, nil, o.Panic)
 					}
 					draws = o.Draws
+					codecCalls(pw)
 				})
 				// candidates, incl. rejected ones, recomputed from the draws (index into the sorted alphabet)
 				if L >= 1 && len(alpha) > 0 {
@@ -170,10 +172,13 @@ func cmdEmit(args []string) {
 						return
 					}
 					_ = r.Entropy()
-					o := e.Run(nil, func() { p, err := r.Generate(); res = ResOf(p, err, nil) })
+					var pw *spg.Password
+					o := e.Run(nil, func() { p, err := r.Generate(); res = ResOf(p, err, nil); pw = p })
 					if o.Panic != nil {
 						res = ResOf(nil, nil, o.Panic)
 					}
+					draws = o.Draws
+					codecCalls(pw)
 				})
 				all := []int{}
 				for _, w := range sc.WL.Words {
@@ -199,6 +204,17 @@ func cmdEmit(args []string) {
 			for _, t := range res.Toks {
 				if len(t.V) >= 3 {
 					ev.Secrets = append(ev.Secrets, t.V)
+				}
+			}
+			// the raw random words that selected the characters / words: whoever reads them can redo the selection
+			for _, d := range draws {
+				for _, w := range d.Raw {
+					if w >= 0x100000 {
+						ev.Secrets = append(ev.Secrets, CPs(fmt.Sprintf("%x", w)), CPs(fmt.Sprintf("%X", w)))
+						if w >= 100000000 {
+							ev.Secrets = append(ev.Secrets, CPs(fmt.Sprintf("%d", w)))
+						}
+					}
 				}
 			}
 			ev.Out = CPs(text)
@@ -244,4 +260,32 @@ func cmdEmit(args []string) {
 	}
 	em.Close()
 	fmt.Printf("{\"events\":%d}\n", em.N)
+}
+
+// codecCalls runs the token-index functions on a generated password, also with indices that cover less than the string and a
+// string longer than the indices (their outcome is C11/C12's business; here only what they write is of interest).
+func codecCalls(pw *spg.Password) {
+	if pw == nil {
+		return
+	}
+	defer func() { recover() }()
+	ix, err := pw.Tokens().MakeIndices()
+	if err != nil {
+		return
+	}
+	str := pw.String()
+	try := func(s string, i spg.Indices) {
+		defer func() { recover() }()
+		spg.Tokenize(s, i, pw.Entropy)
+	}
+	try(str, ix)
+	for cut := 1; cut <= 2 && cut < len(ix); cut++ {
+		try(str, ix[:len(ix)-cut])
+	}
+	try(str+str, ix)
+	if len(ix) > 1 {
+		short := append(spg.Indices{}, ix...)
+		short[len(short)-1] = 0
+		try(str, short)
+	}
 }
